@@ -371,7 +371,7 @@ static std::vector<c07::EndVar> end_variants(double hw0, double hwl) {
 // (V/H for axis-parallel steps, else alternately absolute L and relative l).  mode 2: a command list that stops early after
 // k valid instructions (variant 0: unknown letter, variant 1: last instruction lacks its final argument); the path then has
 // the first k+1 points.  mode 3: as mode 2, then segment(array of the remaining points) with a width change to 1.
-struct Build { int mode = 0, k = 0, variant = 0; };
+struct Build { int mode = 0, k = 0, variant = 0; bool abs_width = false; /* scale_width = false: GDSII writes a negative (absolute) WIDTH */ };
 static bool g_cmd_return_bad = false;  // set by make_path when commands() did not return the documented item index
 static FlexPath* make_path(const std::vector<V>& sp, int wcfg, int ocfg, int bend, int join, int end, bool simple, const Build& bd = Build()) {
     int nel = group_nel(ocfg);
@@ -419,7 +419,7 @@ static FlexPath* make_path(const std::vector<V>& sp, int wcfg, int ocfg, int ben
         }
     }
     fp->simple_path = simple;
-    fp->scale_width = true;
+    fp->scale_width = !bd.abs_width;
     for (int e = 0; e < nel; e++) {
         FlexPathElement& el = fp->elements[e];
         el.join_type = join == c07::J_NATURAL ? JoinType::Natural : join == c07::J_MITER ? JoinType::Miter : join == c07::J_BEVEL ? JoinType::Bevel : JoinType::Round;
@@ -516,10 +516,10 @@ static JFields member_tags(const std::vector<V>& sp, const Member& m, int el, bo
 }
 static std::string member_json(const std::vector<V>& sp, const Member& m) {
     return jobj({{"spine", jpts(sp)}, {"width", jstr(WIDTH_NAME[m.wcfg])}, {"offsets", jstr(OFF_NAME[m.ocfg])}, {"join", jstr(c07::JOIN_NAME[m.join])},
-                 {"end", jstr(END_NAME[m.end])}, {"bend", jstr(BEND_NAME[m.bend])}, {"tolerance", jnum(TOL)}, {"construction", jstr(build_name(m.bd))}});
+                 {"end", jstr(END_NAME[m.end])}, {"bend", jstr(BEND_NAME[m.bend])}, {"tolerance", jnum(TOL)}, {"construction", jstr(build_name(m.bd))}, {"scale_width", jbool(!m.bd.abs_width)}});
 }
 static std::string member_replay(const std::vector<V>& sp, const Member& m) {
-    return fmt("sub=outline pts=%s w=%d oc=%d bend=%d join=%d end=%d", pts_str(sp).c_str(), m.wcfg, m.ocfg, m.bend, m.join, m.end) + (m.bd.mode ? fmt(" cm=%d ck=%d cv=%d", m.bd.mode, m.bd.k, m.bd.variant) : std::string());
+    return fmt("sub=outline pts=%s w=%d oc=%d bend=%d join=%d end=%d", pts_str(sp).c_str(), m.wcfg, m.ocfg, m.bend, m.join, m.end) + (m.bd.mode ? fmt(" cm=%d ck=%d cv=%d", m.bd.mode, m.bd.k, m.bd.variant) : std::string()) + (m.bd.abs_width ? " sw=0" : "");
 }
 
 // ----------------------------------------------------------------------- PATH record decoding (hook)
@@ -527,6 +527,7 @@ struct PathRecord {
     std::vector<V> pts;
     double hw = 0;
     bool round = false;       // end code "round"
+    bool scale_width = true;  // GDSII: false when the WIDTH record is negative (absolute width)
     double ext_s = 0, ext_e = 0;  // straight extensions (half-width ends are given as hw)
     std::string end_name;
 };
@@ -548,6 +549,7 @@ static bool decode_paths(const std::string& file, bool oas, std::vector<PathReco
             if (p->num_elements != 1 || p->elements[0].half_width_and_offset.count < 1) { err = "malformed re-read path"; ok = false; break; }
             for (uint64_t k = 0; k < p->spine.point_array.count; k++) r.pts.push_back(V{p->spine.point_array[k].x, p->spine.point_array[k].y});
             r.hw = p->elements[0].half_width_and_offset[0].x;
+            r.scale_width = p->scale_width;
             switch (p->elements[0].end_type) {
                 case EndType::Flush: r.end_name = "flush"; break;
                 case EndType::Round: r.round = true; r.end_name = "round"; break;
@@ -585,6 +587,7 @@ struct GroupOpts {
     int only_join = -1, only_end = -1;
     double h = 0.25;
     Build bd;  // how the members of the group are constructed
+    bool c_all_joins = false;  // PATH-record comparison against all four source joins (default natural/miter)
 };
 struct ElemOracle {
     c07::ElementInput in;
@@ -658,7 +661,8 @@ static void run_group(const std::vector<V>& sp, int wcfg, int ocfg, int bend, co
     }
     bool book_failed = false;
     // source coverage kept for the PATH-record comparison: [join 0..1][end][element]
-    std::vector<uint8_t> keep[2][NE][2];
+    std::vector<uint8_t> keep[c07::NJ][NE][2];
+    const int cjoins = opt.c_all_joins ? c07::NJ : 2;  // source joins compared with the PATH record
     std::vector<uint8_t> cov;
     for (int j = 0; j < njoin; j++) {
         if (opt.only_join >= 0 && opt.only_join != j) continue;
@@ -798,7 +802,7 @@ static void run_group(const std::vector<V>& sp, int wcfg, int ocfg, int bend, co
                         R->violation("outline", fmt("vertex-outside:%s:%s:%s", rn, c07::JOIN_NAME[j], END_NAME[e]), tags(rn), member_json(sp, m),
                                      fmt("%d polygon vertex/vertices farther than reach+g from the centre line and caps; first: %s", bad_v, describe_sample(o, first_v, e, j, G).c_str()), member_replay(sp, m));
                     }
-                    if (opt.do_c && j <= c07::J_MITER) keep[j][e][el] = cov;
+                    if (opt.do_c && j < cjoins) keep[j][e][el] = cov;
                 }
             }
             for (uint64_t k = 0; k < res.count; k++) { res[k]->clear(); free_allocation(res[k]); }
@@ -824,7 +828,7 @@ static void run_group(const std::vector<V>& sp, int wcfg, int ocfg, int bend, co
             std::string w = what;
             if (w != "centerline" && w != "width" && w != "count" && w != "write") w = "region";
             JFields t = {{"format", jstr(oas ? "oas" : "gds")}, {"join", jstr(c07::JOIN_NAME[m.join])}, {"end", jstr(END_NAME[m.end])}, {"bend_fits", jbool(eo[el].o.any_bend)},
-                         {"taper", jbool(m.wcfg == 2)}, {"offset_sign", jstr(off > 0 ? "+" : off < 0 ? "-" : "0")}, {"what", jstr(w)}, {"bends_compete", jbool(eo[el].o.bends_compete)}};
+                         {"taper", jbool(m.wcfg == 2)}, {"offset_sign", jstr(off > 0 ? "+" : off < 0 ? "-" : "0")}, {"what", jstr(w)}, {"bends_compete", jbool(eo[el].o.bends_compete)}, {"scale_width", jbool(!m.bd.abs_width)}};
             return t;
         };
         auto creplay = [&](const Member& m) { return member_replay(sp, m) + " c=1"; };
@@ -885,8 +889,14 @@ static void run_group(const std::vector<V>& sp, int wcfg, int ocfg, int bend, co
                     continue;
                 }
                 if (fabs(r0.hw - eo[el].in.hw[0]) > GRID) {
-                    R->violation(sub, "width", ctags(mr, el, "width"), member_json(sp, mr), fmt("PATH record half width %.6f, element starts with %.6f", r0.hw, eo[el].in.hw[0]), creplay(mr));
+                    R->violation(sub, opt.bd.abs_width ? "width:scale_width=false" : "width", ctags(mr, el, "width"), member_json(sp, mr), fmt("PATH record half width %.6f, element starts with %.6f", r0.hw, eo[el].in.hw[0]), creplay(mr));
                     continue;
+                }
+                if (opt.bd.abs_width) {
+                    R->count("path_records_absolute_width", (int64_t)rg.idx.size());
+                    bool flag_bad = false;
+                    for (int k : rg.idx) if (!oas && recs[k * nel + el].scale_width) flag_bad = true;  // OASIS has no absolute width
+                    if (flag_bad) { R->violation(sub, "scale-width-flag", ctags(mr, el, "width"), member_json(sp, mr), "path written with scale_width = false re-read with scale_width = true", creplay(mr)); continue; }
                 }
                 if (wcfg == 2) { R->count("path_records_tapered_centerline_only", (int64_t)rg.idx.size()); continue; }
                 // --- region denoted by the record (format definition: swept centre line, mitred corners) vs source polygons
@@ -915,7 +925,7 @@ static void run_group(const std::vector<V>& sp, int wcfg, int ocfg, int bend, co
                 for (int k : rg.idx) {
                     int e = ends[k];
                     if (!(ro.valid_ends >> e & 1)) continue;
-                    for (int j = 0; j <= c07::J_MITER; j++) {
+                    for (int j = 0; j < cjoins; j++) {
                         if (opt.only_join >= 0 && opt.only_join != j) continue;
                         const std::vector<uint8_t>& sc = keep[j][e][el];
                         if (sc.size() != grid.size()) continue;  // source member had no polygon (reported above)
@@ -1647,6 +1657,7 @@ int main(int argc, char** argv) {
             if (!run.rarg("join").empty()) opt.only_join = atoi(run.rarg("join").c_str());
             if (!run.rarg("end").empty()) opt.only_end = atoi(run.rarg("end").c_str());
             if (!run.rarg("h").empty()) opt.h = atof(run.rarg("h").c_str());
+            if (run.rarg("sw") == "0") { opt.bd.abs_width = true; opt.c_all_joins = true; }
             if (!run.rarg("cm").empty()) { opt.bd.mode = atoi(run.rarg("cm").c_str()); opt.bd.k = atoi(run.rarg("ck").c_str()); opt.bd.variant = atoi(run.rarg("cv").c_str()); }
             if (sp.size() >= 2) {
                 if (!run.rarg("w").empty()) run_group(sp, atoi(run.rarg("w").c_str()), atoi(run.rarg("oc").c_str()), atoi(run.rarg("bend").c_str()), opt);
@@ -1679,6 +1690,25 @@ int main(int argc, char** argv) {
     run_family("2pt", "every 2-point polyline of the 5x5 lattice scaled by 4, up to translation", s2, opt, 60);
     if (opt.do_c && !getenv("C07_FAM")) run_long(T);
     if (opt.do_c) run_manh(T);
+    if (opt.do_c) {
+        // scale_width = false: FlexPath::to_gds writes a negative WIDTH (absolute width); the record must re-load with the
+        // same positive half width, scale_width == false (GDSII) and the same region for every end and source join
+        std::vector<std::vector<V>> a3;
+        enum_spines(3, vec_set(T ? 1 : 3), a3);
+        GroupOpts ao = opt;
+        ao.bd.abs_width = true;
+        ao.c_all_joins = true;
+        auto body = [&](int64_t i) {
+            for (int w : {0, 1}) for (int oc : (T ? std::vector<int>{0, 1, 2, 3} : std::vector<int>{0, 3})) for (int b : (T ? std::vector<int>{0, 1} : std::vector<int>{0})) run_group(a3[i], w, oc, b, ao);
+        };
+        auto describe = [&](int64_t i) { return jobj({{"spine", jpts(a3[i])}, {"then", jstr("scale_width=false members of this spine")}}); };
+        auto replay_of = [&](int64_t i) { return fmt("sub=outline pts=%s sw=0 c=1", pts_str(a3[i]).c_str()); };
+        if (!getenv("C07_FAM") || std::string("abswidth").find(getenv("C07_FAM")) != std::string::npos) {
+            bool ok = parallel_for(run, (int64_t)a3.size(), body, describe, replay_of, PFOptions{60, "path.gds", true});
+            run.bound("path.abswidth", fmt("scale_width = false (negative GDSII WIDTH): %zu 3-point spines with steps from the %d shortest lattice vectors x widths {1, 2} x offsets {%s} x bends {%s} x 4 joins x 5 ends x {gds, oas}: outline, record centre line, positive half width, scale_width flag (gds), region against every source join",
+                                            a3.size(), T ? 16 : 8, T ? "0, +1.5, -1.5, two elements" : "0, two elements", T ? "none, r=1" : "none"), ok, (int64_t)a3.size() * (T ? 16 : 4) * 20);
+        }
+    }
     if (opt.do_c) {
         std::vector<std::vector<V>> e3;
         enum_spines(3, vec_set(T ? 1 : 3), e3);
